@@ -823,6 +823,66 @@ fn main() {
             cases.push((format!("d3:{j}:{}", chunk[0].show()), v));
         }
     }
+    // depth-4 "spines" over the two unmarked letters a, b: U2(B2(U1(B1(x, y)), z)) in both operand
+    // orders, with U1, U2 in UNARY + identity. Iteration of a language whose words all have length
+    // >= 2, followed or preceded by something else and then made optional / iterated again, needs
+    // this depth. Thorough: a further binary combinator with a depth-<=1 unary operand on top.
+    {
+        let ab = [RefExpr::byte(b'a'), RefExpr::byte(b'b')];
+        let un_or_id = |u: Option<U>, e: &RefExpr| match u {
+            Some(op) => un(op, e),
+            None => e.clone(),
+        };
+        let mut u_opts: Vec<Option<U>> = vec![None];
+        u_opts.extend(UNARY.iter().map(|u| Some(*u)));
+        let mut spines: Vec<RefExpr> = vec![];
+        for b1 in BINARY {
+            for x in &ab {
+                for y in &ab {
+                    let inner = bin(b1, x, y);
+                    for u1 in &u_opts {
+                        let mid = un_or_id(*u1, &inner);
+                        for b2 in BINARY {
+                            for z in &ab {
+                                spines.push(bin(b2, &mid, z));
+                                spines.push(bin(b2, z, &mid));
+                            }
+                        }
+                    }
+                }
+            }
+        }
+        for (j, chunk) in spines.chunks(64).enumerate() {
+            let mut v = vec![];
+            for e in chunk {
+                for u2 in UNARY {
+                    v.push(un(u2, e));
+                }
+            }
+            cases.push((format!("d4-spine:{j}:{}", chunk[0].show()), v));
+        }
+        if thorough {
+            let mut tops: Vec<RefExpr> = vec![];
+            for w in &ab {
+                tops.push(w.clone());
+                for u in [U::Star, U::Plus, U::Opt] {
+                    tops.push(un(u, w));
+                }
+            }
+            for (j, chunk) in spines.chunks(16).enumerate() {
+                let mut v = vec![];
+                for e in chunk {
+                    for b3 in BINARY {
+                        for t in &tops {
+                            v.push(bin(b3, t, e));
+                            v.push(bin(b3, e, t));
+                        }
+                    }
+                }
+                cases.push((format!("d4-top:{j}:{}", chunk[0].show()), v));
+            }
+        }
+    }
     let total: usize = cases.iter().map(|c| c.1.len()).sum();
     cx.extra("expressions_enumerated", json!(total));
     let only = std::env::var("C19_ONLY").ok();
